@@ -333,7 +333,9 @@ func (er *encRun) roundTrip(stream string, t *target, m protoreflect.Message, fl
 		if dpan == nil && derr == nil {
 			backTerm = "(Some " + msgTermCanon(mb) + ")"
 		}
-		if dpan == nil {
+		if dpan == nil && len(o.Out) > maxModelOut {
+			res.Count("model_skipped_large_document") // a list literal of that length overflows coqc's stack; the oracle still runs
+		} else if dpan == nil {
 			pf, pt := literalTables(o.Out)
 			er.em.cf.Terms = append(er.em.cf.Terms, fmt.Sprintf("CRound %s %s %s %s %s %s %s %s %s %s", t.Name, codecgen.BytesTerm(t.Env.Root), msgTerm(m),
 				facts.floatsTerm(), facts.innersTerm(), pf, pt, vh.BoolTerm(facts.maxMap <= 1), codecgen.BytesTerm(string(o.Out)), backTerm))
@@ -379,6 +381,9 @@ func (er *encRun) roundTrip(stream string, t *target, m protoreflect.Message, fl
 	}
 }
 
+// documents longer than this are checked by the direct oracle only
+const maxModelOut = 2600
+
 func runC01(cfg *vh.Config) error {
 	res := vh.NewResult("C01", cfg.Seed)
 	res.Rule = "representable messages (valid UTF-8, finite floats, defined enum numbers, years 0001-9999 with real calendar days, timestamps 0001-9999 with nanos in range, well-formed decimals, Any with known types) of test.schema.v1.FullSchema and related roots and of generated dynamic descriptors; integer boundaries, escapes / controls / non-BMP text, every oneof arm, maps, arrays, nesting depth 1-5, optional-with-zero; encoded with the real codec, decoded into a fresh message, compared with the two allowances (decimals numerically, empty flattened sub-object = absent; Any by type and payload). Library streams: ParseInt, byteValueFromString, time.Parse, DateFromString, the float round-trip law of strconv. non-trivial = distinct (type, message) other than the empty message"
@@ -397,22 +402,35 @@ func runC01(cfg *vh.Config) error {
 	for _, m := range handMessages() {
 		er.roundTrip("hand-written", full, m.ProtoReflect(), flats[full])
 	}
+	// every message-typed field present but empty (singular, list element, map value; two levels)
+	for _, t := range targets {
+		for _, m := range emptySubMessages(t.New) {
+			er.roundTrip("empty-submessage", t, m, flats[t])
+		}
+	}
 	pick := func() *target {
 		if r.Chance(65) {
 			return full
 		}
 		return vh.Pick(r, targets)
 	}
-	for i := 0; i < cfg.Scale(700, 20000); i++ {
+	for i := 0; i < cfg.Scale(40, 1500); i++ {
 		t := pick()
-		g := &msgGen{r: r, maxDepth: 2, fieldPct: vh.Pick(r, []int{3, 6}), maxEntries: 2}
+		g := &msgGen{r: r, maxDepth: r.Range(1, 3), fieldPct: vh.Pick(r, []int{4, 10, 25}), maxEntries: 2, big: true, emptySubs: 20}
+		m := t.New()
+		g.fill(m, 1)
+		er.roundTrip("big", t, m, flats[t])
+	}
+	for i := 0; i < cfg.Scale(600, 20000); i++ {
+		t := pick()
+		g := &msgGen{r: r, maxDepth: 2, fieldPct: vh.Pick(r, []int{3, 6}), maxEntries: 2, emptySubs: 30}
 		m := t.New()
 		g.fill(m, 1)
 		er.roundTrip("sparse", t, m, flats[t])
 	}
-	for i := 0; i < cfg.Scale(900, 30000); i++ {
+	for i := 0; i < cfg.Scale(800, 30000); i++ {
 		t := pick()
-		g := &msgGen{r: r, maxDepth: r.Range(1, 5), fieldPct: vh.Pick(r, []int{10, 20, 35, 60}), maxEntries: r.Range(1, 3)}
+		g := &msgGen{r: r, maxDepth: r.Range(1, 5), fieldPct: vh.Pick(r, []int{10, 20, 35, 60}), maxEntries: r.Range(1, 3), emptySubs: vh.Pick(r, []int{0, 10, 30})}
 		m := t.New()
 		g.fill(m, 1)
 		er.roundTrip("message", t, m, flats[t])
